@@ -67,6 +67,10 @@ Lemma nf_lift {A B} (r : store -> res A) (k : A -> M B) s (Q : B -> store -> Pro
   r s = Ok a -> nf (k a) s Q -> nf (bindM (lift r) k) s Q.
 Proof. intros E T. unfold nf, bindM, lift. rewrite E. exact T. Qed.
 
+Lemma nf_fresh {B} w (k : nat -> M B) s (Q : B -> store -> Prop) :
+  nf (k (len s)) (snd (alloc_var s w)) Q -> nf (bindM (fresh w) k) s Q.
+Proof. intros T. exact T. Qed.
+
 Lemma nf_conseq {A} (m : M A) s (Q1 Q : A -> store -> Prop) :
   nf m s Q1 -> (forall a s1, m s = MOk a s1 -> Q1 a s1 -> Q a s1) -> nf m s Q.
 Proof. unfold nf. destruct (m s); intros T K; auto. Qed.
@@ -611,5 +615,183 @@ Proof.
   intros a b s k _ _ _ _ _ _ _ L. lia.
 Qed.
 
-(*TERM5*)
+(* ---- the part of apply after the function type is known ---- *)
+Lemma T_apply_tail fuel x f' fixb s : Pre s -> tg H n x -> tg H n f' ->
+  depth x <= M -> depth f' <= M -> M + n * M + 8 <= fuel ->
+  nf (match f' with
+      | O o [lft; rgt] =>
+          if Nat.eqb o Function then
+            unify H fuel true false false x lft ;;;
+            if fixb && negb (is_fun rgt) then fix_ty H fuel true rgt else ret rgt
+          else if Nat.eqb o Top then ret (O Top [])
+          else fail EFunApp
+      | O o _ => if Nat.eqb o Top then ret (O Top []) else fail EFunApp
+      | V _ => fail EFunApp
+      end) s (fun _ _ => True).
+Proof.
+  intros P Tx Tf Dx Df L. pose proof P as (I & Iv & Rs).
+  destruct f' as [v|o [|lft [|rgt [|z r]]]]; try (apply nf_fail; auto);
+    try (destruct (Nat.eqb o Top); [apply nf_ret; exact Logic.I|apply nf_fail; auto]).
+  destruct (Nat.eqb o Function).
+  2:{ destruct (Nat.eqb o Top); [apply nf_ret; exact Logic.I|apply nf_fail; auto]. }
+  destruct (tg_args H _ _ _ Tf) as [_ Fa]. inversion Fa as [|? ? Tl Fa']; subst.
+  inversion Fa' as [|? ? Tr _]; subst.
+  assert (Dl : depth lft <= M) by (pose proof (depth_arg o [lft; rgt] lft (or_introl eq_refl)); lia).
+  eapply nf_bind with (Q1 := RQ).
+  - apply (specU_all fuel x lft s (M + n * M)); auto; try (apply sdle_init; auto); lia.
+  - intros [] s1 E1 R1. destruct (unify_post fuel x lft s s1 P Tx Tl E1 R1) as [(I1 & Iv1 & _) F1].
+    destruct (fixb && negb (is_fun rgt)); [|apply nf_ret; exact Logic.I].
+    destruct (fix_total_fdl H W fuel true rgt s1 (M + n * M)) as (r & s2 & E2); auto.
+    + apply inv_core. exact Iv1.
+    + rewrite (R_len s1 R1). exact Tr.
+    + apply dle_fdl. eapply dle_mono; [apply (dle_dok s1 M (R_dok s1 R1) (fut_wf _ _ F1) rgt)|].
+      rewrite (R_len s1 R1).
+      pose proof (depth_arg o [lft; rgt] rgt (or_intror (or_introl eq_refl))). lia.
+    + lia.
+    + eapply nf_eq; [exact E2|exact Logic.I].
+Qed.
+
 End Term.
+
+(* ------------------------------------------------------------------ *)
+(* the explicit fuel bounds                                             *)
+(* ------------------------------------------------------------------ *)
+
+(* the deepest term around: the two arguments and every binding of the store *)
+Definition mdep (s : store) (a b : tyv) : nat :=
+  Nat.max 1 (Nat.max (mdepth s) (Nat.max (depth a) (depth b))).
+
+Definition unify_bound (s : store) (a b : tyv) : nat :=
+  mdep s a b + len s * mdep s a b + 7.
+
+(* apply may allocate the two variables of a fresh function type *)
+Definition apply_bound (s : store) (f x : tyv) : nat :=
+  mdep s f x + (len s + 2) * mdep s f x + 7.
+
+Section Bounds.
+Variable H : hier.
+Hypothesis W : wf_hier H.
+
+Lemma R_intro s M : J H s -> mdepth s <= M -> R M (len s) s.
+Proof.
+  intros I L. constructor; [apply I|reflexivity|eapply dok_mono; [exact L|apply dok_mdepth]].
+Qed.
+
+(* C17_term_P, unify: with more fuel than unify_bound, unification in subtype
+   mode returns - a value or one of the typing errors, never EFuel (nor a
+   crash, Inv.unify_ok) *)
+Theorem unify_term fuel a b s : J H s -> inv s -> tg H (len s) a -> tg H (len s) b ->
+  unify_bound s a b < fuel ->
+  (exists s', unify H fuel true false false a b s = MOk tt s') \/
+  (exists e s', unify H fuel true false false a b s = MEr e s' /\ e <> EFuel /\ forall n, e <> ECrash n).
+Proof.
+  intros I Iv Ta Tb L. unfold unify_bound in L. set (M := mdep s a b) in *.
+  assert (M1 : 1 <= M) by (unfold M, mdep; lia).
+  assert (Rs : R M (len s) s) by (apply R_intro; auto; unfold M, mdep; lia).
+  assert (P : Pre H M (len s) s) by (split; [exact I|split; [exact Iv|exact Rs]]).
+  assert (Da : depth a <= M) by (unfold M, mdep; lia).
+  assert (Db : depth b <= M) by (unfold M, mdep; lia).
+  clearbody M.
+  pose proof (specU_all H W M (len s) M1 fuel a b s (M + len s * M) P Ta Tb Da Db) as K.
+  assert (Sa : sct true s a) by (intros _; apply tg_tsc with (H := H); exact Ta).
+  assert (Sb : sct true s b) by (intros _; apply tg_tsc with (H := H); exact Tb).
+  pose proof (@unify_ok H true fuel true false false a b s Iv Sa Sb) as K2. unfold ok in K2.
+  unfold nf in K.
+  destruct (unify H fuel true false false a b s) as [[] s'|e s'].
+  - left. eauto.
+  - right. exists e, s'. split; [reflexivity|]. split; [|apply K2].
+    apply K; try (apply sdle_init; auto); lia.
+Qed.
+
+Lemma alloc_cell_old s w v : v < len s -> cell_of (snd (alloc_var s w)) v = cell_of s v.
+Proof. intros L. unfold alloc_var, cell_of; cbn. apply app_nth1. exact L. Qed.
+
+Lemma alloc_cell_new s w : c_bound (cell_of (snd (alloc_var s w)) (len s)) = None.
+Proof. unfold alloc_var, cell_of; cbn. rewrite app_nth2 by lia. rewrite Nat.sub_diag. reflexivity. Qed.
+
+Lemma R_alloc M s w : R M (len s) s -> R M (S (len s)) (snd (alloc_var s w)).
+Proof.
+  intros [Ncs _ D]. constructor.
+  - intros i. rewrite alloc_var_cset. apply Ncs.
+  - apply alloc_var_length.
+  - intros v t. rewrite alloc_var_bound. apply D.
+Qed.
+
+(* C17_term_P, apply *)
+Theorem apply_term fuel f0 x0 fixb s : J H s -> inv s -> tg H (len s) f0 -> tg H (len s) x0 ->
+  apply_bound s f0 x0 < fuel ->
+  forall s', apply H fuel f0 x0 fixb s <> MEr EFuel s'.
+Proof.
+  intros I Iv Tf0 Tx0 L. unfold apply_bound in L. set (M := mdep s f0 x0) in *.
+  assert (M1 : 1 <= M) by (unfold M, mdep; lia).
+  assert (Rs : R M (len s) s) by (apply R_intro; auto; unfold M, mdep; lia).
+  assert (Df0 : depth f0 <= M) by (unfold M, mdep; lia).
+  assert (Dx0 : depth x0 <= M) by (unfold M, mdep; lia).
+  clearbody M.
+  assert (K : nf (apply H fuel f0 x0 fixb) s (fun _ _ => True)).
+  2:{ intros s' E. unfold nf in K. rewrite E in K. congruence. }
+  unfold apply. apply nf_gets. apply nf_gets.
+  pose proof (tg_follow H s f0 I Tf0) as Tf. pose proof (tg_follow H s x0 I Tx0) as Tx.
+  pose proof (depth_follow_f M s (R_dok _ _ _ Rs) _ f0 Df0 : depth (follow s f0) <= M) as Df.
+  pose proof (depth_follow_f M s (R_dok _ _ _ Rs) _ x0 Dx0 : depth (follow s x0) <= M) as Dx.
+  pose proof (follow_unbound_core f0 (inv_core Iv)) as Nf.
+  set (f := follow s f0) in *. set (x := follow s x0) in *. clearbody f x.
+  eapply nf_bind with (Q1 := fun f' s1 => exists n1, n1 <= len s + 2 /\ Pre H M n1 s1 /\
+                                 tg H n1 x /\ tg H n1 f' /\ depth f' <= M).
+  - destruct f as [vf|o args].
+    2:{ apply nf_ret. exists (len s). split; [lia|]. split; [split; [exact I|split; [exact Iv|exact Rs]]|]. auto. }
+    cbn in Nf. assert (Lv : vf < len s) by (inversion Tf; auto).
+    apply nf_fresh.
+    pose proof (J_alloc H s false I) as I1. pose proof (@inv_alloc_var true s false Iv) as Iv1.
+    pose proof (R_alloc M s false Rs) as R1. pose proof (alloc_var_length s false) as N1.
+    pose proof (alloc_cell_old s false vf Lv) as C1. pose proof (alloc_cell_new s false) as A1.
+    set (s1 := snd (alloc_var s false)) in *. clearbody s1.
+    apply nf_fresh. rewrite N1.
+    pose proof (J_alloc H s1 false I1) as I2. pose proof (@inv_alloc_var true s1 false Iv1) as Iv2.
+    rewrite <- N1 in R1. pose proof (R_alloc M s1 false R1) as R2. pose proof (alloc_var_length s1 false) as N2.
+    assert (C2 : cell_of (snd (alloc_var s1 false)) vf = cell_of s vf)
+      by (rewrite alloc_cell_old by lia; exact C1).
+    assert (A2 : c_bound (cell_of (snd (alloc_var s1 false)) (len s)) = None)
+      by (rewrite alloc_cell_old by lia; exact A1).
+    pose proof (alloc_cell_new s1 false) as B2. rewrite N1 in B2.
+    set (s2 := snd (alloc_var s1 false)) in *. clearbody s2.
+    set (t := O Function [V (len s); V (S (len s))]).
+    assert (Vf : variance H Function = [false; true]) by apply (wf_fun H W).
+    assert (Nbf : basic H Function = false).
+    { destruct (basic H Function) eqn:Eb; auto. apply Lub.basic_iff in Eb. congruence. }
+    assert (Tt : tg H (len s2) t).
+    { constructor; [rewrite Vf; reflexivity|].
+      constructor; [constructor; lia|constructor; [constructor; lia|constructor]]. }
+    assert (Hvf : c_bound (cell_of s2 vf) = None) by (rewrite C2; exact Nf).
+    assert (Dt : depth t <= M) by (unfold t; cbn; lia).
+    assert (No : nocc s2 vf t).
+    { apply nocc_op. intros z [<-|[<-|[]]]; apply nocc_unb; auto; lia. }
+    destruct fuel as [|fuel']; [lia|].
+    assert (R2' : R M (len s2) s2) by (rewrite N2; exact R2).
+    assert (Lf : 2 <= fuel') by lia.
+    eapply nf_bind with (Q1 := fun _ s3 => R M (len s2) s3).
+    + apply T_bind_O; auto; [lia|]. intros _ c2 Hc.
+      apply (@vars_f_fuel fuel' (set_cell s2 vf c2) t [] 1); [|lia].
+      apply dle_op. intros z [<-|[<-|[]]]; apply dle_unb; rewrite cell_of_set_cell_other by lia; auto.
+    + intros [] s3 E3 R3. apply nf_gets_end.
+      destruct (bind_sound_x H W (S fuel') vf t s2 s3 I2) as (I3 & _); auto; [lia| |].
+      { intros o args [= <- <-] Eb. congruence. }
+      assert (Iv3 : inv s3 /\ ext s2 s3).
+      { pose proof (@bind_ok H true (S fuel') vf t s2 Iv2 Hvf) as K3. unfold ok in K3. rewrite E3 in K3.
+        destruct K3 as (A & B & _); auto.
+        - exact Logic.I.
+        - intros _. lia.
+        - intros _. apply tg_tsc with (H := H). exact Tt.
+        - intros _. right. exact No. }
+      destruct Iv3 as [Iv3 X3].
+      assert (L3 : len s3 = len s2) by apply R3.
+      exists (len s2). split; [lia|]. split; [split; [exact I3|split; [exact Iv3|exact R3]]|].
+      split; [eapply tg_mono; [|exact Tx]; lia|]. split.
+      * rewrite <- L3. apply tg_follow; auto. constructor. lia.
+      * apply (depth_follow_f M s3 (R_dok _ _ _ R3)). cbn. lia.
+  - cbv beta. intros f' s1 _ (n1 & Ln & P1 & Tx1 & Tf1 & Df1).
+    apply (T_apply_tail H W M n1 M1 fuel x f' fixb s1); auto.
+    assert (n1 * M <= (len s + 2) * M) by (apply Nat.mul_le_mono_r; exact Ln). lia.
+Qed.
+
+End Bounds.
